@@ -541,3 +541,135 @@ def h_forkserver_poll(ready: bool, block: bool, mode: int, vi: int, cut: int) ->
         return True
     finally:
         bc.wait, fs.os = saved
+
+
+# ---------------------------------------------------------------------------
+# spawn start method: the sentinel the parent waits on is the read end of a pipe whose only write end lives in the child, so it
+# becomes ready exactly when the child is gone (join(timeout) / is_alive rest on that).  The real Popen._launch runs over a
+# small fake kernel (fd table, pipes, what the spawned child inherits).
+
+class _Kernel:
+    def __init__(self):
+        self.next_fd = 20
+        self.pipes = []            # [read_fd, write_fd]
+        self.parent_open = set()
+        self.child_fds = None
+        self.written = {}
+
+    def pipe(self):
+        r, w = self.next_fd, self.next_fd + 1
+        self.next_fd += 2
+        self.pipes.append((r, w))
+        self.parent_open.update((r, w))
+        return r, w
+
+    def close(self, fd):
+        if fd not in self.parent_open:
+            raise OSError(9, 'Bad file descriptor')
+        self.parent_open.discard(fd)
+
+    def write_end_holders(self, read_fd):
+        w = [p[1] for p in self.pipes if p[0] == read_fd][0]
+        holders = []
+        if w in self.parent_open:
+            holders.append('parent')
+        if self.child_fds is not None and w in self.child_fds:
+            holders.append('child')
+        return holders
+
+
+def h_spawn_launch(nextra: int) -> bool:
+    """
+    pre: 0 <= nextra <= 2
+    post: _
+    """
+    import io as _io
+    import billiard.popen_spawn_posix as psp
+    nextra = pick(nextra, 0, 2)
+    with untraced():
+        k = _Kernel()
+
+        class FakeOS:
+            environ = {}
+
+            def __getattr__(self, name):
+                return getattr(_os, name)
+            pipe = staticmethod(k.pipe)
+            close = staticmethod(k.close)
+
+        class FakeIO:
+            BytesIO = _io.BytesIO
+
+            @staticmethod
+            def open(fd, mode, closefd=True):
+                if fd not in k.parent_open:
+                    raise OSError(9, 'Bad file descriptor')
+                class Sink:
+                    def __init__(self):
+                        self.data = b''
+
+                    def write(self, b):
+                        self.data += bytes(b)
+
+                    def getvalue(self):
+                        return self.data
+
+                    def __enter__(self):
+                        return self
+
+                    def __exit__(self, *a):
+                        return False
+                buf = Sink()
+                k.written[fd] = buf
+                return buf
+
+        def spawnv(exe, cmd, fds):
+            k.child_fds = list(fds)
+            return 4242
+        saved = (psp.os, psp.io, psp.spawnv_passfds, psp.spawn, psp.reduction, psp.context)
+
+        class FakeSpawn:
+            _Django_old_layout_hack__save = staticmethod(lambda: None)
+            get_preparation_data = staticmethod(lambda name: {'name': name})
+            get_executable = staticmethod(lambda: 'python')
+
+            @staticmethod
+            def get_command_line(**kw):
+                k.cmd_kw = kw
+                return ['python', '-c', 'x']
+
+        class FakeReduction:
+            dump = staticmethod(lambda obj, fp: fp.write(b'D'))
+        import billiard.semaphore_tracker as st
+        saved_getfd = st.getfd
+        st.getfd = lambda: 90
+        psp.os, psp.io, psp.spawnv_passfds, psp.spawn, psp.reduction = FakeOS(), FakeIO(), spawnv, FakeSpawn(), FakeReduction()
+        try:
+            p = psp.Popen.__new__(psp.Popen)
+            p._fds = [60 + j for j in range(nextra)]        # handles the process object asked to pass on (duplicate_for_child)
+            p.returncode = None
+            proc = type('P', (), {'_name': 'child'})()
+            p._launch(proc)
+        finally:
+            psp.os, psp.io, psp.spawnv_passfds, psp.spawn, psp.reduction, psp.context = saved
+            st.getfd = saved_getfd
+        if p.pid != 4242 or k.child_fds is None:
+            return fail('C19:spawn:child-not-started')
+        if p.sentinel not in k.parent_open:
+            return fail('C19:spawn:sentinel-closed-in-the-parent')
+        holders = k.write_end_holders(p.sentinel)
+        if 'parent' in holders:
+            return fail('C19:spawn:sentinel-never-becomes-ready:the-parent-keeps-its-write-end')
+        if holders != ['child']:
+            # nobody holds the write end: the sentinel reads as ready while the child is still running - join(timeout) falls
+            # through to a blocking waitpid, is_alive/exitcode stay right only by luck
+            return fail('C19:spawn:sentinel-ready-while-the-child-is-alive')
+        data_r = k.cmd_kw.get('pipe_handle')
+        if data_r not in k.child_fds or 90 not in k.child_fds or any(60 + j not in k.child_fds for j in range(nextra)):
+            return fail('C19:spawn:child-does-not-inherit-its-handles')
+        data_w = [pp[1] for pp in k.pipes if pp[0] == data_r][0]
+        if data_w in k.parent_open or data_r in k.parent_open:
+            return fail('C19:spawn:parent-leaks-the-data-pipe')
+        if k.written.get(data_w) is None or k.written[data_w].getvalue() != b'DD':
+            return fail('C19:spawn:preparation-data-not-written-to-the-child')
+        return True
